@@ -179,6 +179,12 @@ pub fn run(out: &mut dyn Write, rng: &mut Rng, n: usize, so: &str) {
             line(out, &api, &ops);
         }
     }
+    // scripted: positions whose best move is an under-promotion (the proposal travels through the optional-move ABI types)
+    for f in ["6br/5Ppk/6pp/8/8/8/8/K7 w - - 0 1", "k7/8/8/8/8/6PP/5pPK/6BR b - - 0 1", "5b1r/4P1pk/6pp/8/8/8/8/K7 w - - 0 1"] {
+        let ops: Vec<String> = vec![format!("s{}", f.replace(' ', "_")), "e400".into(), "b".into()];
+        calls += ops.len() as u64;
+        line(out, &api, &ops);
+    }
     // one long shuffle: every position of a 4-ply knight cycle recurs 300 times (u8 counter boundary at 256)
     if std::env::var("VERIF_SEED").map(|s| s.ends_with('1') || s.len() > 6).unwrap_or(true) {
         let mut ops: Vec<String> = Vec::new();
